@@ -260,6 +260,7 @@ class Oracle:
         self.outcomes = []
         self.interacted = False
         self.states = set()
+        self.pools = {}              # pid -> {pool name: pool} (filled by run_one)
 
     def count(self, key, n=1):
         self.stats[key] = self.stats.get(key, 0) + n
@@ -428,9 +429,82 @@ class Oracle:
         parked = tuple(sorted((t.pid, t.blocked_kind) for t in self.k.threads if t.state == BLOCKED))
         return int(hashlib.blake2b(repr((holds, kern, parked)).encode(), digest_size=6).hexdigest(), 16)
 
+    def check_no_stale_state(self):
+        """"When the last user leaves, the file descriptor is closed and all bookkeeping is
+        empty" - evaluated at every step, not only at the end of the run: a process none of
+        whose threads is inside path_lock() for a path (no request in flight, no body) must hold
+        no record lock on it, have no descriptor of it open and keep no pool entry for it.  (A
+        leftover that a later user happens to clean up is invisible to the end-state check.)"""
+        users = set()
+        for vt, frames in self.inflight.items():
+            for fr in frames:
+                users.add((vt.pid, fr['inode']))
+        dead = self.k.dead_pids
+        for inode, held in self.os.locks.items():
+            for p, m in held.items():
+                if p not in dead and (p, inode) not in users:
+                    self.violation('leak/record-lock',
+                                   f'process {p} holds {m} on {os.path.basename(inode)} in the kernel '
+                                   f'although none of its threads is using the path')
+                    return
+        for p, table in self.os.fds.items():
+            if p in dead:
+                continue
+            for fd, f in table.items():
+                if (p, f.inode) not in users:
+                    self.violation('leak/fd', f'process {p} keeps fd {fd} of '
+                                              f'{os.path.basename(f.inode)} open although none of its '
+                                              f'threads is using the path')
+                    return
+        for p, pools in self.pools.items():
+            if p in dead:
+                continue
+            table = self.os.fds.get(p, {})
+            for name, pool in pools.items():
+                for key in list(pool._refs):
+                    if isinstance(key, str):
+                        ok = (p, key) in users
+                    else:       # pools keyed by file descriptor
+                        f = table.get(key)
+                        ok = f is not None and (p, f.inode) in users
+                    if not ok:
+                        self.violation('leak/pool', f'process {p}: {name} keeps {key!r} although none '
+                                                    f'of its threads is using the path')
+                        return
+
+    def check_waiters_have_a_waker(self):
+        """No lost wake-up, step by step: a blocking requester parked on a condition variable
+        (not yet notified) is woken by threads of its own process only.  If no other thread of the
+        process is inside path_lock() for that path - in a body, acquiring or releasing - nobody
+        is left to notify it: it has been forgotten, even if some later, unrelated request would
+        happen to rescue it (the quiescence check cannot see that case)."""
+        for vt, frames in self.inflight.items():
+            if not frames or vt.state != BLOCKED or vt.blocked_kind != 'cond' or vt.killed:
+                continue
+            fr = frames[-1]
+            if fr['phase'] != 'acq' or vt.pred is None or vt.pred():
+                continue
+            inode = fr['inode']
+            alone = True
+            for o, ofr in self.inflight.items():
+                if o is vt or o.pid != vt.pid or o.killed:
+                    continue
+                if any(f['inode'] == inode for f in ofr):
+                    alone = False
+                    break
+            if alone:
+                self.count('probe.stepwise_lost_grant')
+                self.violation('lost-grant',
+                               f'{vt.name}: {fmt_req(fr["req"])} waits on the condition variable, not '
+                               f'notified, while no other thread of process {vt.pid} is using '
+                               f'{os.path.basename(inode)} any more')
+                return
+
     def on_step(self):
         self.states.add(self.abstract_state())
         self.check_kernel()
+        self.check_no_stale_state()
+        self.check_waiters_have_a_waker()
         for vt, frames in self.inflight.items():
             if not frames:
                 continue
@@ -596,6 +670,8 @@ def run_one(cfg, tape: Tape, want_trace=False):
     for pid in range(1, prog['nproc'] + 1):
         thr = make_threading(k, faults=faults, stats=stats)
         mods[pid] = modinst.load_lock_module(thr, simos.make_fcntl(pid), simos.make_os(pid))
+
+    oracle.pools = {pid: modinst.pools_of(m) for pid, m in mods.items()}
 
     def make_body(tspec):
         mod = mods[tspec['pid']]
